@@ -180,6 +180,11 @@ def replay_value(sk: Any, payloads: Dict[int, Any], idx: int, rule_label: str, e
 def replay_record(rec: Dict[str, Any]) -> Tuple[bool, str]:
     from ..rulekit import num_unjson, skel_unjson
 
+    if rec.get("kind") == "sequence":
+        from . import sequences
+
+        return sequences.replay_record(rec)
+
     env = {k: (Fraction(v["frac"][0], v["frac"][1]) if isinstance(v, dict) else Fraction(v)) for k, v in rec["assignment"].items()}
     for name in "xyzw":
         env.setdefault(name, Fraction(1))
@@ -561,6 +566,9 @@ def run(prop: str, tier: str) -> int:
     rnd.shuffle(items)
     items.sort(key=lambda it: -sk_size(it[1]))  # biggest first: better balance over the workers
     collect(rep, pmap(case_worker, items, budget_s=budget, chunk=6))
+    from . import sequences
+
+    sequences.cross(rep, tier, prop)
     rep.extra["skeletons"] = len(sks)
     required = [name for name, _ in RULES if (prop == "C02") == name.startswith("BalancedMove") or prop == "C02"]
     if prop == "C01":
